@@ -299,6 +299,12 @@ pub struct Arming {
     /// a thread waiting un-notified on a condition variable whose mutex is free becomes an extra
     /// candidate (never the default; choosing it costs one preemption).
     pub spurious_wakeups: u32,
+    /// Exploration window (persistent mode): when set, the execution starts with the window
+    /// *closed*: every scheduling decision takes the default candidate and records no choice
+    /// point, until the scenario calls `Inst::set_explore(true)` (and again after
+    /// `set_explore(false)`).  The window must be toggled by threads of the instance at points that
+    /// are a function of the schedule, so that replay sees the same choice points.
+    pub start_closed: bool,
 }
 
 impl Arming {
@@ -398,6 +404,8 @@ struct Sched {
     persistent: bool,
     events: Vec<Event>,
     spurious_left: u32,
+    /// exploration window open (see `Arming::start_closed`)
+    explore: bool,
 }
 
 struct Slot {
@@ -461,6 +469,7 @@ impl Sched {
             persistent: false,
             events: vec![],
             spurious_left: 0,
+            explore: true,
         }
     }
 
@@ -533,6 +542,10 @@ impl Sched {
     /// Take a decision among `mask`; records a choice point when there are two or more candidates.
     fn choose(&mut self, mask: u32, default: usize, free: u32, notify: bool) -> Option<usize> {
         debug_assert!(mask != 0 && mask & bit(default) != 0);
+        if !self.explore {
+            // outside the exploration window: the default schedule, no choice point
+            return Some(default);
+        }
         if mask.count_ones() < 2 {
             return Some(mask.trailing_zeros() as usize);
         }
@@ -1174,6 +1187,7 @@ impl Inst {
             let mut s = self.lock();
             s.reset_strategy(prefix);
             s.spurious_left = arming.spurious_wakeups;
+            s.explore = !arming.start_closed;
             s.arming = arming;
             s.locks.clear();
             s.conds.clear();
@@ -1342,6 +1356,7 @@ impl Inst {
         let mut s = self.lock();
         s.reset_strategy(prefix);
         s.spurious_left = arming.spurious_wakeups;
+        s.explore = !arming.start_closed;
         s.arming = arming;
         s.horizon = horizon;
         s.livelock_bound = livelock_bound;
@@ -1356,6 +1371,19 @@ impl Inst {
         }
         s.conds.retain(|_, w| !w.is_empty());
         self.in_exec.store(true, Ordering::SeqCst);
+    }
+
+    /// Arm the metadata points of `[lo, hi)` for the rest of the current execution (for objects
+    /// that only come into existence during it).  To be called by a thread of the instance while
+    /// it runs.
+    pub fn arm_range(&self, lo: usize, hi: usize) {
+        self.lock().arming.range(lo, hi);
+    }
+
+    /// Open / close the exploration window (see `Arming::start_closed`).  To be called by a thread
+    /// of the instance while it runs (it holds the baton).
+    pub fn set_explore(&self, on: bool) {
+        self.lock().explore = on;
     }
 
     /// Persistent mode: let every other thread run until none of them is enabled.
